@@ -53,6 +53,7 @@ StripAttrs(g) == [g EXCEPT !.aat = [a \in DOMAIN @ |-> Emp],
 
 Dangling(g) == ~(DescrIds(g.ast) \cup DescrIds(g.bst) \cup ChangeIds(g.ach) \cup ChangeIds(g.bch)
                    \cup UNION (DOMAIN g.bst) \cup UNION (DOMAIN g.bch) \subseteq Atoms(g))
+               \/ ~(DOMAIN g.bst \cup DOMAIN g.bch \subseteq Bonds(g))
 
 (* a bond stereo change recorded for a side of the reaction on which the bond does
    not exist: reactant()/product() (hence ==, hash) may refuse such a graph *)
@@ -195,6 +196,7 @@ Outcomes(g, h, op) ==
     [] n = "copy" -> { RES(g, g) }
     [] n = "json_roundtrip" ->         \* the JSON format carries no free attributes: kept or dropped
          { RES(g, g), RES(g, StripAttrs(g)) } \cup
+         (IF Dangling(g) THEN { RAISE(g) } ELSE {}) \cup   \* a descriptor over a missing atom / bond may be refused
          (IF HasRoles(g.kind) THEN {}      \* on a plain (stereo) molecule graph a role is just an attribute
           ELSE { RES(g, [StripAttrs(g) EXCEPT !.bd = [bb \in DOMAIN @ |-> [role |-> "none", at |-> Emp]]]) })
     [] n = "copy_ctor" -> { RES(g, Convert(g, op.tk)) }
@@ -206,6 +208,7 @@ Outcomes(g, h, op) ==
          ELSE { RAISE(g), RES(g, Subgraph(g, op.S \cap Atoms(g))) }
     [] n = "enantiomer" -> { RES(g, Enantiomer(g)) }
     [] n = "reverse"  -> { RES(g, Reverse(g, TRUE)), RES(g, Reverse(g, FALSE)) }
+                         \cup (IF Dangling(g) THEN { RAISE(g) } ELSE {})
     [] n = "reactant" -> { RES(g, Reactant(g, op.flag)) } \cup (IF IllFormedSides(g) THEN { RAISE(g) } ELSE {})
     [] n = "product"  -> { RES(g, Product(g, op.flag)) } \cup (IF IllFormedSides(g) THEN { RAISE(g) } ELSE {})
     [] n = "compose"  -> { RES(g, Compose(<<g, h>>, op.tk, TRUE)), RES(g, Compose(<<g, h>>, op.tk, FALSE)) }
